@@ -226,6 +226,9 @@ def run(ck):
                                     what='%s: path x bare %r: ((%r, seg, %r), (%r, seg, %r)) gives points %s (members: %s)' % (name, seg, T1, t1, T2, t2, pts, okm), case={'family': name},
                                     expected='equal points on member segments', observed=[str(p_) for p_ in pts], driver='path')
                         break
+    # the identities that entitle the placement families to their oracle (differences, determinant ratios, squared lengths, extreme coordinates), for all integers
+    ck.apalache('MC_Placement', 'Inv')
+    ck.apalache('MC_Placement', 'Wrong', expect_error=True)
     thin_and_tiny(ck)
 
 
